@@ -39,7 +39,11 @@ MANIFEST = {
             'accepted text is then run on the VM under the step automata with '
             'an instruction budget and faults are classified as internal or '
             "the script's own. Crashes are de-duplicated by (exception type, "
-            'innermost repository frame). Sampled input space.',
+            'innermost repository frame). Sampled input space.'
+            ' Further classes: valid texts using one spelling as a quoted'
+            ' string and as a number or time pattern (must be accepted an'
+            'd run), commands inside matrix blocks, token soups in braces'
+            ', long repetitions (20 s CPU bound per text).',
     'note': 'Trusted: the fault classifier (list of machinery frames), the '
             'construction of the rule-breaking mutants. A run stopped by the '
             'instruction budget is not a fault (infinite scripts are legal).',
